@@ -179,8 +179,36 @@ def run_batch(spec):
         else:
             c = fragment.generate(rng, {"max_subs": 4, "max_stmts": 3, "recursion": rng.random() < 0.2})
         src, _ = T.render(c["prog"], c["version"])
+        # every program of a batch is analysed dozens of times (hash seeds, histories, orders): keep only programs whose
+        # analysis + all detectors take a few seconds; an expensive one (path explosion) is skipped and counted
+        import signal
+        import time as _time
+
+        class _Slow(BaseException):
+            pass
+
+        def _al(*_a):
+            raise _Slow()
+
+        signal.signal(signal.SIGALRM, _al)
+        signal.alarm(12)
+        try:
+            _t0 = _time.time()
+            dump.full(src)
+            ctr["precheck_seconds_max"] = max(ctr["precheck_seconds_max"], int(_time.time() - _t0))
+        except _Slow:
+            ctr["programs_skipped_too_expensive"] += 1
+            continue
+        except Exception:
+            pass        # a tealer exception is C17's subject; the perturbation runs will see it again
+        finally:
+            signal.alarm(0)
+        common.release_tealer_caches()
         progs.append((c, src))
     srcs = [s_ for _c, s_ in progs]
+    if not progs:
+        out["counters"] = dict(ctr)
+        return out
     seeds = [1, 2, 3] if spec["tier"] == "quick" else list(range(1, 17))
     try:
         # baselines: each program alone would cost one process each; instead the batch is analysed in one fresh
@@ -195,11 +223,13 @@ def run_batch(spec):
     for n, (c, src) in enumerate(progs):
         others = [s_ for k, s_ in enumerate(srcs) if k != n][:3] or [src]
         viols = []
+        signal.alarm(600)
         try:
             ok = one_program(src, others, rng, ctr, viols, spec["tier"], base=base_all[n],
                              seed_dumps={hs: per_seed[hs][n] for hs in seeds})
-        except subprocess.TimeoutExpired:
+        except (subprocess.TimeoutExpired, _Slow):
             out["inconclusive"] += 1
+            ctr["program_watchdog_fired"] += 1
             continue
         except Exception as e:
             import traceback
@@ -207,6 +237,8 @@ def run_batch(spec):
             if len(out["notes"]) < 2:
                 out["notes"].append({"raised": traceback.format_exc()[-500:], "src": src[:1500]})
             continue
+        finally:
+            signal.alarm(0)
         common.release_tealer_caches()
         if not ok:
             out["inconclusive"] += 1
